@@ -802,7 +802,7 @@ fn read_battery(out: &mut Out, ctx: &Ctx, eng: &Eng, cx: &Cx, level: u8) {
         }
     }
     let sel: Option<Vec<u64>> = r.as_ref().ok().map(|x| ids_of(x));
-    check_ids(out, ctx, "select", false, cx, &exp, r.map(|x| ids_of(&x)).map_err(|x| x.to_string()), true);
+    check_ids(out, ctx, "select", false, cx, &exp, r.map(|x| ids_of(&x)).map_err(|x| x.to_string()), false);
     out.calls += 1;
     match e.count(t, c.clone()) {
         Ok(n) if n as usize == exp.len() => {}
@@ -838,7 +838,7 @@ fn read_battery(out: &mut Out, ctx: &Ctx, eng: &Eng, cx: &Cx, level: u8) {
         let r = e.select_columnar(t, c.clone(), ColumnarScanOptions { projection: None, prefer_columnar: false });
         check_ids(out, ctx, "select_columnar(prefer_columnar=false)", false, cx, &exp, r.map(|x| ids_of(&x)).map_err(|x| x.to_string()), false);
         let r = e.select_iter(t, c.clone(), CursorOptions::default()).map_err(|x| x.to_string()).and_then(|cur| cur.map(|x| x.map(|r| r.id).map_err(|e| e.to_string())).collect::<Result<Vec<u64>, String>>());
-        check_ids(out, ctx, "select_iter", false, cx, &exp, r, true);
+        check_ids(out, ctx, "select_iter", false, cx, &exp, r, false);
     }
 }
 
@@ -976,8 +976,12 @@ fn limit_battery(out: &mut Out, ctx: &Ctx, eng: &Eng, cx: &Cx) {
             if limit == 1 || limit == offset + 1 {
                 out.calls += 1;
                 let cur = e.select_iter(t, c.clone(), CursorOptions::new().with_limit(limit).with_offset(offset)).map(|cur| cur.filter_map(|x| x.ok()).map(|r| r.id).collect::<Vec<u64>>());
-                if cur.as_ref().ok() != Some(&got) {
-                    out.viol("c04:select_iter:differs-from-select_with_limit".into(), format!("select_iter({}, limit {limit}, offset {offset}) = {cur:?} but select_with_limit = {got:?}", cx.show()), ctx.seq, qjson(cx, "select_iter", &exp, &got));
+                let bad = match &cur {
+                    Ok(g) => g.len() != want_len || g.iter().any(|x| !exp.contains(x)) || sorted(g.clone()).windows(2).any(|w| w[0] == w[1]),
+                    Err(_) => true,
+                };
+                if bad {
+                    out.viol(if path != "scan" { trunc.clone() } else { "c04:select_iter:scan:limit-offset".to_string() }, format!("select_iter({}, limit {limit}, offset {offset}) = {cur:?}; the rows satisfying the condition are {exp:?} so the page must hold {want_len} of them", cx.show()), ctx.seq, qjson(cx, "select_iter", &exp, &got));
                 }
             }
             grid.insert((limit, offset), got);
@@ -1227,14 +1231,14 @@ fn battery(seq: &[Op], pl: &Plan, selftest: bool) -> Out {
     lap("pairs text", out.calls);
     for (k, cx) in pl.triples.iter().enumerate() {
         read_battery(&mut out, &ctx, &eng, cx, 0);
-        if (k + seq.len()) % 2 == 0 {
+        // every second triple of each of the four nestings, alternating with the depth
+        if (k / 4 + k % 4 + seq.len()) % 2 == 0 {
             text_battery(&mut out, &ctx, &eng, cx);
         }
     }
     lap("triples", out.calls);
     // "materialising columns changes only speed, never results"
     let e = eng.e();
-    let before = eng.hidden_digest();
     let _ = e.materialize_columns(&eng.t, &["i", "f", "s", "b"]);
     for cx in core_atoms() {
         read_battery(&mut out, &ctx, &eng, &cx, 0);
@@ -1245,9 +1249,9 @@ fn battery(seq: &[Op], pl: &Plan, selftest: bool) -> Out {
     for cx in core_atoms() {
         read_battery(&mut out, &ctx, &eng, &cx, 0);
     }
-    // neither that nor any read may have changed what is stored
-    if eng.hidden_digest() != before || eng.raw_rows().ok().as_ref() != Some(&m.rows) {
-        out.viol("c04:read-or-materialize-changes-state".into(), "a read query or materialize_columns/drop_columnar_data changed stored rows or index entries".into(), seq, json!({}));
+    // neither that nor any read may have changed the rows
+    if eng.raw_rows().ok().as_ref() != Some(&m.rows) {
+        out.viol("c04:read-or-materialize-changes-rows".into(), "a read query or materialize_columns/drop_columnar_data changed the stored rows".into(), seq, json!({}));
     }
     lap("materialize", out.calls);
     for cx in &pl.write_set {
